@@ -33,6 +33,9 @@ from .consts import Ref, Unknown, is_unknown
 from .model import AnalysisError, walk_no_nested
 
 
+_GEN_CACHE = {}   # id(function node) -> (node, is generator)
+
+
 class SetV:
     """abstract set: insertion-ordered list of abstract items (may hold extend-markers)"""
 
@@ -83,6 +86,41 @@ def key(v) -> str:
     return repr(v)
 
 
+def subst_sym(v, old, new):
+    """replace the atom `old` by `new` inside an abstract value"""
+    if isinstance(v, Sym):
+        if v == old:
+            return new
+        if not v.args:
+            return v
+        return Sym(v.op, *[subst_sym(a, old, new) for a in v.args])
+    if isinstance(v, Lin):
+        out = Lin({}, v.const)
+        for a, c in v.terms.items():
+            t = Lin.of(subst_sym(a, old, new))
+            if t is None:
+                raise AnalysisError("substitution leaves the linear fragment")
+            out = out + t.scale(c)
+        return out.simplify()
+    if isinstance(v, tuple):
+        return tuple(subst_sym(x, old, new) for x in v)
+    if isinstance(v, list):
+        return [subst_sym(x, old, new) for x in v]
+    return v
+
+
+def generic_items(seq):
+    """normalise a partly symbolic list: extend([elt for var in X]) -> the generic element elt[var := elem(X)]"""
+    out = []
+    for x in seq:
+        if is_marker(x) and isinstance(x.args[0], Comp) and not x.args[0].conds:
+            c = x.args[0]
+            out.append(subst_sym(c.elt, Sym("loopvar", c.var), Sym("elem", c.iter, -1)))
+        else:
+            out.append(x)
+    return out
+
+
 def mcall(recv, name, *args):
     """the abstract value of `recv.name(*args)` for an opaque receiver"""
     return Sym("call", Sym("attr", recv, name), *args)
@@ -100,6 +138,7 @@ class SymInterp(Interp):
        global(it, name, func) / attr(it, base, attr, func)
        loop(it, for_node, iterable, elem, env, func)     entering a symbolic loop
        positive(atom) -> bool                            atom is known to be >= 1
+       inline(fobj) -> bool                              interpret this repository function instead of keeping the call opaque
     `instantiate`: names of repository classes whose constructor is interpreted (Obj + __init__)."""
 
     def __init__(self, repo, folder=None, asg=None, hooks=None, instantiate=()):
@@ -231,7 +270,38 @@ class SymInterp(Interp):
             return list(c)
         return None
 
+    def unpack_seq(self, v, n, node, func):
+        """opaque sequences unpack to index(v, i) / slice(v, p, q): the same names a subscript gives"""
+        if isinstance(v, (tuple, list)):
+            elts = getattr(node, "elts", None)
+            if elts is not None and any(isinstance(e, ast.Starred) for e in elts) and not any(is_marker(x) for x in v):
+                p = next(i for i, e in enumerate(elts) if isinstance(e, ast.Starred))
+                after = len(elts) - p - 1
+                if len(v) < len(elts) - 1:
+                    raise Raised("ValueError", node, "not enough values to unpack")
+                vals = list(v)
+                return vals[:p] + [vals[p:len(vals) - after]] + (vals[len(vals) - after:] if after else [])
+            return super().unpack_seq(v, n, node, func)
+        elts = getattr(node, "elts", None)
+        if elts is not None and any(isinstance(e, ast.Starred) for e in elts):
+            p = next(i for i, e in enumerate(elts) if isinstance(e, ast.Starred))
+            after = len(elts) - p - 1
+            out = [Sym("index", v, i) for i in range(p)]
+            out.append(Sym("slice", v, p, -after if after else None))
+            out += [Sym("index", v, -(after - j)) for j in range(after)]
+            return out
+        return [Sym("index", v, i) for i in range(n)]
+
+    def comp_member(self, comp, v):
+        """v in [elt for var in iter]  <=>  exists generic element of iter with elt == v"""
+        if comp.conds:
+            return self.atom("in", key(v), key(comp))
+        gen = Sym("elem", comp.iter, -1)
+        return self.eq(v, subst_sym(comp.elt, Sym("loopvar", comp.var), gen))
+
     def contains(self, c, v):
+        if isinstance(c, Comp):
+            return self.comp_member(c, v)
         items = self.items_of(c)
         if items is None:
             if isinstance(c, (str, bytes)) and isinstance(v, type(c)):
@@ -239,7 +309,10 @@ class SymInterp(Interp):
             return self.atom("in", key(v), key(c))
         for it in items:
             if is_marker(it):
-                if self.atom("in", key(v), key(it.args[0])):
+                if isinstance(it.args[0], Comp):
+                    if self.comp_member(it.args[0], v):
+                        return True
+                elif self.atom("in", key(v), key(it.args[0])):
                     return True
             elif self.eq(v, it):
                 return True
@@ -290,7 +363,11 @@ class SymInterp(Interp):
         return o
 
     def call_function(self, func, args, kwargs=None, recv=None):
-        gen = any(isinstance(n, (ast.Yield, ast.YieldFrom)) for n in walk_no_nested(func.node))
+        gen = _GEN_CACHE.get(id(func.node))
+        if gen is None or gen[0] is not func.node:
+            gen = (func.node, any(isinstance(n, (ast.Yield, ast.YieldFrom)) for n in walk_no_nested(func.node)))
+            _GEN_CACHE[id(func.node)] = gen
+        gen = gen[1]
         self.trace.append(("enter", func.qualname))
         if gen:
             self.yield_stack.append([])
@@ -438,6 +515,11 @@ class SymInterp(Interp):
             return SetV(a.items + b.items)
         if isinstance(a, list) and isinstance(op, ast.Add) and isinstance(b, Sym):
             return a + [Sym("extend", b)]
+        if isinstance(op, ast.LShift) and isinstance(_int(b), int) and not isinstance(b, bool) and 0 <= _int(b) < 64 \
+                and isinstance(a, (Sym, Lin)):
+            la = Lin.of(a)
+            if la is not None:
+                return la.scale(1 << _int(b)).simplify()
         return NotImplemented
 
     def _h_subscript(self, it, base, k, node, func):
@@ -583,6 +665,9 @@ class SymInterp(Interp):
             r = h(self, fobj, args, kwargs, node, func)
             if r is not NotImplemented:
                 return r
+        h = self.user.get("inline")
+        if h and h(fobj):
+            return self.call_function(fobj, list(args), kwargs)
         self.trace.append(("call", fobj.qualname, tuple(args)))
         return Sym("call", fobj.qualname, *args)
 
@@ -631,6 +716,8 @@ class SymInterp(Interp):
                 seq = self.concrete_iter(args[0])
                 if seq is not None and not any(is_marker(x) for x in seq):
                     return tuple(seq)
+            if name == "len" and args and isinstance(args[0], Obj) and args[0].cls is not None and args[0].cls.lookup("__len__") is not None:
+                return self.call_function(args[0].cls.lookup("__len__"), [], None, recv=args[0])
             if name == "len" and args and isinstance(args[0], SetV) and not any(is_marker(x) for x in args[0].items):
                 return len(args[0].items)
             if name == "len" and args and isinstance(args[0], list) and any(is_marker(x) for x in args[0]):
@@ -641,6 +728,11 @@ class SymInterp(Interp):
                     start = _int(args[1]) if len(args) > 1 else 0
                     if isinstance(start, int):
                         return [(start + i, x) for i, x in enumerate(seq)]
+            if name in ("any", "all") and len(args) == 1:
+                seq = self.concrete_iter(args[0])
+                if seq is not None and not any(is_marker(x) for x in seq):
+                    vals = [self.truth(x, node, func) for x in seq]
+                    return any(vals) if name == "any" else all(vals)
             if name in ("sorted", "reversed") and args:
                 return Sym(name, *args)
         return NotImplemented
